@@ -141,7 +141,7 @@ def scenarios(ctx):
                        pub_qos=(1, 2) if q else (0, 1, 2), lose_kinds=('lost',)))
         out.append(Scn('pub-ka-%s' % mode, profile='pub', mode=mode,
                        init=(('connect', 0, True, 3, 4), ('connack', 0, 0, False)), reconnects=[(True, 0, 4)],
-                       budgets=dict(pub=2 if q else 3, ack=1 if q else 2, tick=3, lose=1, rebuild=1, connect=1, connack=1),
+                       budgets=dict(pub=2 if q else 3, ack=1 if q else 2, tick=3, lose=1, disconnect=1, rebuild=1, connect=1, connack=1),
                        pub_qos=(1, 2)))
     out.append(Scn('pub-reenter-errback', profile='pub', mode='async', init=CONNECTED, reconnects=[(True, 0, 4)],
                    reenter=('err:pub>pub',), windows=(1, 2), pub_qos=(1, 2),
@@ -151,8 +151,8 @@ def scenarios(ctx):
                                 tick=0 if q else 1),
                    pub_qos=(0, 1) if q else (0, 1, 2), lose_kinds=('done',)))
     out.append(Scn('pubsub-connecting', profile='pubsub', mode='async', connects=[(True, 2, 4)],
-                   reconnects=[(True, 0, 4)],
-                   budgets=dict(connect=2, connack=2, badconnack=1, pub=2, tick=2, lose=1, rebuild=1, sub=1), pub_qos=(1,),
+                   reconnects=[(False, 0, 4), (True, 0, 4)],
+                   budgets=dict(connect=2, connack=2, badconnack=1, reconn2=1, pub=2, tick=2, lose=1, rebuild=1, sub=1), pub_qos=(1,),
                    lose_kinds=('lost',)))
     return out
 
